@@ -1,5 +1,6 @@
 import Lean.Data.Json
 import ArcaModel.Model.Ops
+import ArcaModel.Model.Compat
 /-
   JSON codec of the line protocol and the dispatcher from a decoded case to the model.
   (Executable glue only; nothing here is used in a theorem.)
@@ -276,9 +277,21 @@ def handleSchemaOp (j : Json) (op : Op) : R Json := do
     | _ => 200
   return encOut (run ext fuel op [] ty v)
 
+def handleCompatS (j : Json) : R Json := do
+  let s ← decTy (← field j "schema")
+  let o ← decTy (← field j "schema2")
+  let fuel := match fieldOpt j "fuel" with
+    | some (.num n) => n.mantissa.toNat
+    | _ => 200
+  return match compatS fuel [] [] s o with
+    | .ok () => Json.mkObj [("r", "ok"), ("v", .null)]
+    | .err e => Json.mkObj [("r", "err"), ("c", .bool e.constraint), ("path", .arr (e.path.map Json.str).toArray)]
+    | .panic => Json.mkObj [("r", "panic")]
+    | .fuel => Json.mkObj [("r", "fuel")]
+
 /-- handler of the schema operations; other models register their own in `Driver.lean` -/
 def schemaHandler (op : String) (j : Json) : Option (R Json) :=
-  (opOf op).map (handleSchemaOp j)
+  if op == "CS" then some (handleCompatS j) else (opOf op).map (handleSchemaOp j)
 
 def handleWith (handlers : List (String → Json → Option (R Json))) (j : Json) : Json :=
   let r : R Json := do
